@@ -33,10 +33,16 @@ def check_rebind(prop, res, repo):
         else:
             res.fail(rule, finding(prop, rule, st, st.node, f"the candle_manager setter does not unconditionally hand the new manager to every helper in {reg}: an already initialised indicator keeps computing its helpers on the old candles", construct=f"setter: propagate to {reg}"))
     want = {"self._candles": param, "self.candles": f"{param}.candles"}
+    # the member takes over the manager's effective configuration (what `settings` reports and a standalone twin is built from)
+    for cfg in ("timeframe", "timeframe_fill", "candles_lifespan", "candlestick_type"):
+        want[f"self.{cfg}"] = f"{param}.{cfg}"
     got = {ast.unparse(t): ast.unparse(s.value) for s in st.node.body if isinstance(s, ast.Assign) for t in s.targets}
+    dynamic = [c for c in calls_in(st.node) if call_name(c) in ("setattr", "update") or (call_name(c) == "__setattr__")]
     for k, v in want.items():
         if got.get(k) == v:
             res.ok(rule, {"site": st.where, "store": f"{k} = {v}"})
+        elif dynamic and k not in got:
+            res.errors.append(f"{st.where}: the candle_manager setter stores attributes dynamically ({norm_construct(dynamic[0])[:60]}): whether {k} = {v} is among them cannot be decided")
         else:
             res.fail(rule, finding(prop, rule, st, st.node, f"the setter must set {k} = {v}", construct=f"setter: {k}"))
     for nm in ("add_sub_indicator", "add_managed_indicator"):
